@@ -187,7 +187,7 @@ def build_case(tree, use, probe_pos, ref, shadow, probe_index=None, extra=None):
     return {"items": items, "cur": list(probe_pos), "ref": ref, "shadow": bool(shadow), "tokens": enc_program(items)}
 
 
-def small_trees(max_defs, max_depth, fn_names=(4, 5), mod_names=(1, 2)):
+def small_trees(max_defs, max_depth, fn_names=(4, 5), mod_names=(1, 2), nested_pub=True):
     """all item lists with <= max_defs functions; functions listed before modules in a block; no empty modules;
     module names distinct within a block; nested modules carry a pub flag, top-level ones do not"""
     def blocks(budget, depth, top):
@@ -210,12 +210,12 @@ def small_trees(max_defs, max_depth, fn_names=(4, 5), mod_names=(1, 2)):
             out.append((fns, nf))
             subs = [b for b in blocks(budget - nf, depth - 1, False) if b[1] > 0]
             for s1, u1 in subs:
-                for p1 in ((False,) if top else (False, True)):
+                for p1 in ((False,) if top or not nested_pub else (False, True)):
                     if nf + u1 <= budget:
                         out.append((fns + [("M", p1, mod_names[0], s1)], nf + u1))
                     for s2, u2 in subs:
                         if nf + u1 + u2 <= budget:
-                            for p2 in ((False,) if top else (False, True)):
+                            for p2 in ((False,) if top or not nested_pub else (False, True)):
                                 out.append((fns + [("M", p1, mod_names[0], s1), ("M", p2, mod_names[1], s2)], nf + u1 + u2))
         return out
     return [b[0] for b in blocks(max_defs, max_depth, True) if b[1] > 0]
@@ -256,12 +256,12 @@ def ref_options(tree):
     return [(r[0], r[1] if r[0] == "v" else list(r[1])) for r in sorted(refs, key=repr)]
 
 
-def gen_exhaustive(max_defs, shard, nshards, stride=1):
+def gen_exhaustive(max_defs, shard, nshards, stride=1, nested_pub=True):
     """shard `shard` of `nshards` of the exhaustive scope; stride > 1 keeps every stride-th case only"""
     n = 0
     nshards *= stride
     shard *= stride
-    for tree in small_trees(max_defs, 2):
+    for tree in small_trees(max_defs, 2, nested_pub=nested_pub):
         mods = sorted(set(module_paths(tree)))
         refs = ref_options(tree)
         for use in use_options(tree):
@@ -441,7 +441,7 @@ def work(arg):
     st["known_class_hits"] = collections.Counter()
     st["problem_counts"] = collections.Counter()
     if job[0] == "enum":
-        cases = gen_exhaustive(max_defs, job[1], job[2], stride)
+        cases = gen_exhaustive(max_defs, job[1], job[2], stride, nested_pub=(max_defs > 2))
     else:
         cases = gen_random(job[1], job[2])
     kept = {"fail": [], "disagree": [], "other": []}
@@ -534,7 +534,7 @@ def main(ctx, args):
         shards = NCPU * 2
         jobs = [("enum", k, shards) for k in range(shards)]
         nrand = NCPU * 2 if ctx.tier == "quick" else NCPU * 8
-        per = 3000 if ctx.tier == "quick" else 20000
+        per = 4000 if ctx.tier == "quick" else 20000
         jobs += [("rand", ctx.seed * 100000 + i, per) for i in range(nrand)]
 
         from concurrent.futures import ProcessPoolExecutor
@@ -551,8 +551,9 @@ def main(ctx, args):
             stats["forms"].update(st["forms"])
             stats["samples"] += st["samples"][:1]
             problems += pr
-        ctx.coverage["exhaustive_scope"] = (f"all module trees with <= {max_defs} functions (names n4,n5; modules n1,n2; depth <= 2; every pub/private "
-                                            "assignment) x (no use | one use / pub use: single, {..}, * of every absolute/relative path, placed at top or in any module) "
+        ctx.coverage["exhaustive_scope"] = (f"all module trees with <= {max_defs} functions (names n4,n5; modules n1,n2; depth <= 2; every pub/private assignment of functions"
+                                            + ("" if max_defs <= 2 else " and nested modules") + ") "
+                                            "x (no use | one use / pub use: single, {..}, * of every absolute/relative path, placed at top or in any module) "
                                             "x probe position (top level or any module) x reference (identifier, every absolute/relative path) x (plain | locally shadowed)")
         ctx.coverage["exhaustive_stride"] = stride
         ctx.coverage["exhaustive"] = False
